@@ -1061,6 +1061,8 @@ func (env *Zlisp) LeftBindingPower(sx Sexp) (int, error) {
 		return 0, nil
 	case *SexpStr:
 		return 0, nil
+	case *SexpChar, *SexpUint64:
+		return 0, nil
 	case *SexpSymbol:
 		op, found := env.infixOps[x.name]
 		if x.name == "if" {
